@@ -70,7 +70,7 @@ check(
 check(
     "C10",
     "metamorphic search over the environment: Hypothesis-generated inputs x call scripts (orders, repetitions, interleavings, leaking calls first) x PYTHONHASHSEED values, each in a fresh interpreter; digest-equality oracle",
-    "Generated-input search where the varied dimension is the interpreter: for each (api, input) the bytes produced must be identical across all sampled hash seeds, all positions in all call scripts and repetitions. Covers function/class/argparse/json-schema/sqlalchemy parsers and emitters, gen with import inference, infer_imports/optimise_imports, doctrans, openapi emit, get_module_contents.",
+    "Generated-input search where the varied dimension is the interpreter: for each (api, input) the bytes produced must be identical across all sampled hash seeds, all positions in all call scripts and repetitions. Covers function/class/argparse/json-schema/sqlalchemy/docstring parsers and emitters (incl. Table and hybrid variants), gen with import inference, infer_imports/optimise_imports, doctrans, sync, openapi emit, get_module_contents.",
     "Hash seeds and scripts are sampled; key order inside one parameter's dict is not treated as output (parameter order is).",
 )
 check(
@@ -83,7 +83,7 @@ check(
 check(
     "C11",
     "exhaustive token-sequence enumeration + Hypothesis-generated prose/interfaces/modules; bounded-progress oracle (interval-timer filter, then deterministic sys.settrace step budget)",
-    "Termination recast as a safety property a search can decide: every sequence of <=4 (quick) / <=5 (thorough) docstring tokens through six entry points, generated interfaces with hostile prose through docstring.emit and the emitters that embed it, cst_parse on token soups, and generated modules through doctrans applied 1..3 times. A violation needs both the wall-clock filter (>=10^4 x normal time) and the deterministic step budget (>=20x the calibrated maximum) to be exceeded.",
+    "Termination recast as a safety property a search can decide: every sequence of <=4 (quick) / <=5 (thorough) tokens of a 21-token docstring alphabet through six entry points, every sequence of <=3 / <=4 tokens of a 33-token prose-to-type alphabet (union/literal/'list of' sentences with tabs, NBSP, line breaks) through the doc-to-type entry points, generated interfaces with hostile prose through docstring.emit and the emitters that embed it, cst_parse on token soups, and generated modules through doctrans applied 1..3 times. A violation needs both the wall-clock filter (>=10^4 x normal time) and the deterministic step budget (>=20x the calibrated maximum) to be exceeded.",
     "A call that terminates but is super-linearly slow inside the budget is not reported; the step budget is calibrated on the generated sizes only.",
 )
 
@@ -97,7 +97,7 @@ check(
 check(
     "C15",
     "grammar-based Hypothesis generator of docstrings with marker words; tiling (slice-identity) oracle for the header/args/footer split and header-line-subsequence / no-absorption oracle for style conversion",
-    "Generated-input search over multi-paragraph headers x three section styles x footers x blank-line counts x indentation: the split must tile the original exactly (prefix, suffix, no overlap, exact concatenation in column 0) for both shapes of `current`; conversions to all three styles (directly and through function.parse of a def carrying the docstring) must keep every header line in order and must not absorb marker words into names, types or defaults.",
+    "Generated-input search over multi-paragraph headers x three section styles x footers x blank-line counts x indentation: the split must tile the original exactly (prefix, suffix, no overlap, exact concatenation in column 0) for both shapes of `current`; conversions to all three styles (with the original docstring carried along, without it - header from the parsed description - and through function.parse of a def carrying the docstring) must keep every header line in order and must not absorb marker words into names, types or defaults.",
     "Footers are broadly mishandled by the tree (P20, P49), as are `:rtype:` lines (P50), text without trailing newline (P48), indented numpydoc (P25) and the exact section/footer boundary (P51): those classes relax the re-parse clauses only; the tiling and header clauses are never relaxed.",
 )
 
@@ -118,7 +118,7 @@ check(
 check(
     "C13",
     "Hypothesis-generated module pairs with dotted paths valid by construction; masked-AST equality oracle (every node but the selected location identical), annotation oracle, default-alignment oracle, raise-atomicity",
-    "Generated-input search over input/output modules and all valid (input-param, output-param) pairs, wrap templates and --input-eval: the output file must parse, the selected location must carry the input's name and (wrapped) annotation or the Literal of the evaluated value, ast.dump of everything else must be identical (covers every other definition, parameter, default and statement, and the alignment of defaults), and the input file must be untouched; when cdd rejects a path both files must be byte-identical.",
+    "Generated-input search over input/output modules and all valid (input-param, output-param) pairs, wrap templates and --input-eval: the output file must parse, the selected location must carry the input's name and (wrapped) annotation or the Literal of the evaluated value, ast.dump of everything else must be identical (covers every other definition, parameter, default and statement, and the alignment of defaults), and the input file must be untouched; when cdd rejects a path both files must be byte-identical. A metamorphic layer checks that ONE call with two (input, output) pairs equals two consecutive single-pair calls; same-name attribute->parameter pairs (the natural use) are built on purpose.",
     "The selected parameter's own default may take the value of a same-named input class attribute (designed behaviour), nothing else may change; param->attr pairs are outside the generated domain.",
 )
 
@@ -132,14 +132,14 @@ check(
 check(
     "C19",
     "Hypothesis-generated input modules x parse kind x 8 emit kinds x name templates x import inference x prepend x existing-output, through the gen CLI entry; compile, names == __all__ == templated names, per-symbol re-parse, import-closure and no-clobber oracles",
-    "Generated-input search over the gen configuration matrix and multi-symbol inputs: the output must compile, define exactly the templated names and list exactly those in __all__, each generated symbol parsed back must have the interface of its source entry (C02/C03 normalisations), every typing name used must be imported when inference is on, __future__ imports first; on an existing output file gen must refuse and leave bytes and mtime untouched.",
+    "Generated-input search over the gen configuration matrix and multi-symbol inputs (also modules mixing classes, plain functions and argparse functions under --parse infer): the output must compile, define exactly the templated names and list exactly those in __all__, each generated symbol parsed back must have the interface of its source entry (C02/C03 normalisations), every typing name used must be imported when inference is on, __future__ imports first; on an existing output file gen must refuse and leave bytes and mtime untouched.",
     "P17d (sqlalchemy kinds with a non-identity template define the un-templated name) relaxes only the defined-names / re-parse clauses for those cells; SQLAlchemy-class, Table and JSON-schema *inputs* are not generated (P37).",
 )
 
 check(
     "C20",
     "Hypothesis-generated package trees x configuration, with dry-run x output-directory state (absent/empty/populated by a previous real run) enumerated inside each case; recursive file-system snapshot diff plus sys.addaudithook write-event log as oracle",
-    "Generated-input search over layouts and option combinations, each case a short history (optional previous real run, then the observed run): dry-run must leave the snapshot of the whole temp root identical and raise no write/mkdir/remove/rename audit event; a real run may only create or modify paths under the output directory, must leave the source package subtree identical, every generated *.py must parse and its __all__ must name symbols the file defines or imports.",
+    "Generated-input search over layouts (also modules with top-level classes that __all__ does not export) and option combinations, each case a short history (optional previous real run, then the observed run): dry-run must leave the snapshot of the whole temp root identical and raise no write/mkdir/remove/rename audit event; a real run may only create or modify paths under the output directory, must leave the source package subtree identical, every generated *.py must parse and its __all__ must name symbols the file defines or imports.",
     "P31 (pydantic/json_schema/sqlalchemy kinds raise) keeps only the containment clauses for those kinds; P56 (black/whitelist FQN never matches) relaxes the blacklist clause; audit events are Python-level.",
 )
 
